@@ -66,7 +66,8 @@ def representable(g):
 # the environment: clockMillis() returns the low 32 bits of true time (Arduino millis() is a 32-bit counter;
 # this covers both the 16-bit and the 32-bit wrap), and does not advance during one call
 contract('virtual ace_time::clock::SystemClock::clockMillis() const', extern=True,
-         model=lambda ex, st, c: z3.ZeroExt(32, z3.Int2BV(st.ghost['now'], 32)) if ex.pbits == 64 else z3.Int2BV(st.ghost['now'], 32),
+         model=lambda ex, st, c: (z3.Int2BV(st.ghost['now'], 64) if st.ghost.get('millis_bits') == 64
+                                  else z3.ZeroExt(32, z3.Int2BV(st.ghost['now'], 32))) if ex.pbits == 64 else z3.Int2BV(st.ghost['now'], 32),
          note='ASSUMED: clockMillis() == now mod 2^32, constant during one call')
 
 
@@ -282,3 +283,171 @@ def exact_time_over_any_schedule(ex):
     rc = z3.BitVec('lm_rc', 32)
     out.append(LemmaOb('the exact reading is unique', [g['M0'] <= a, exact(ga, ra), exact(ga, rc)], ra == rc, logic='int'))
     return out
+
+
+# ==============================================================================
+# C14 -- SystemClockLoop::loop() as a transition relation
+# ==============================================================================
+SCL = 'ace_time::clock::SystemClockLoop'
+READY, SENT, OK, RETRY = 0, 1, 2, 3
+
+
+def _log_clock(tag, bits):
+    def model(ex, st, c):
+        p = ex.ptr_to_bv(c.args[0])
+        r = None
+        if bits:
+            r = ex.fresh('ref_' + tag, bits)
+        st.log.append((tag, p, [r]))
+        return r
+    return model
+
+
+contract('virtual ace_time::clock::Clock::sendRequest() const', extern=True, model=_log_clock('sendRequest', 0),
+         note='ASSUMED: reference clock is an environment object; says nothing beyond its signature')
+contract('virtual ace_time::clock::Clock::isResponseReady() const', extern=True, model=_log_clock('isResponseReady', 1))
+contract('virtual ace_time::clock::Clock::readResponse() const', extern=True, model=_log_clock('readResponse', 32))
+contract('ace_common::TimingStats::update(unsigned short)', extern=True, model=_log_clock('timingStats', 0),
+         note='ASSUMED: external AceCommon statistics object, does not touch the clock')
+
+
+def lfields(view, this):
+    f = lambda n: view.field(this, SCL, n)
+    d = fields(view, this)
+    d.update(sync=f('mSyncPeriodSeconds'), timeout=f('mRequestTimeoutMillis'), stats=f('mTimingStats'),
+             lastms=f('mLastSyncMillis'), startms=f('mRequestStartMillis'), cur=f('mCurrentSyncPeriodSeconds'),
+             status=f('mRequestStatus'))
+    return d
+
+
+def fsm_inv(g, f):
+    """state invariant of the sync machine under ghost time (clockMillis() == true time for this property)"""
+    st = f['status']
+    return z3.And(z3.ULE(st, 3),
+                  z3.Implies(st != READY, U(f['startms']) <= g['now']),
+                  z3.Implies(st == OK, z3.And(U(f['startms']) <= U(f['lastms']), U(f['lastms']) <= g['now'])))
+
+
+def _loop_ghost(ex, st):
+    ghost_init(ex, st)
+    st.ghost['millis_bits'] = 64
+    st.pc.append(st.ghost['now'] < (1 << 62))
+
+
+def _loop_pre(c):
+    g = c.ghost
+    f = lfields(c.old, c.this)
+    return _getnow_pre(c) + _sync_pre(c) + [fsm_inv(g, f)]
+
+
+def deadline(g, f, at_now=None):
+    """absolute true time by which the machine is Ready again if nothing but loop() calls happen"""
+    st = f['status']
+    per = 1000 * U(f['cur'])
+    worst = 1000 * z3.If(U(f['cur']) > U(f['sync']), U(f['cur']), U(f['sync']))
+    now = g['now'] if at_now is None else at_now
+    return z3.If(st == READY, now,
+                 z3.If(st == SENT, U(f['startms']) + U(f['timeout']) + worst,
+                       z3.If(st == OK, U(f['lastms']) + per, U(f['startms']) + per)))
+
+
+def stage(f):
+    st = f['status']
+    return z3.If(st == READY, 0, z3.If(st == SENT, 2, 1))
+
+
+def _loop_post(c):
+    g = c.ghost
+    o = lfields(c.old, c.this)
+    n = lfields(c.new, c.this)
+    now = g['now']
+    ref = o['ref']
+    log = c.log
+    sends = [e for e in log if e[0] == 'sendRequest']
+    readies = [e for e in log if e[0] == 'isResponseReady']
+    reads = [e for e in log if e[0] == 'readResponse']
+    backups = [e for e in log if e[0] == 'setNow']
+    init = is_init(o)
+    out = []
+    B = z3.BoolVal
+    sent = B(bool(sends))
+    # -- no reference clock: only keeps time
+    out.append(('no-reference:no-clock-calls', z3.Implies(ref == 0, B(not (sends or readies or reads or backups)))))
+    out.append(('no-reference:machine-untouched', z3.Implies(ref == 0, z3.And(n['status'] == o['status'], n['cur'] == o['cur'], n['lastms'] == o['lastms'],
+                                                                              n['startms'] == o['startms'], n['L'] == o['L'], n['I'] == o['I']))))
+    # -- calls go to the reference clock only
+    for k, e in enumerate(sends + readies + reads):
+        out.append(('calls-go-to-reference#%d' % k, e[1] == ref))
+    # -- Ready: issue the request now
+    out.append(('ready:sends-request', z3.Implies(z3.And(ref != 0, o['status'] == READY),
+                                                  z3.And(sent, n['status'] == SENT, U(n['startms']) == now, n['cur'] == o['cur']))))
+    out.append(('request-only-from-ready', z3.Implies(sent, z3.And(ref != 0, o['status'] == READY))))
+    # -- Sent
+    if reads:
+        resp = reads[0][2][0]
+        valid = resp != INVALID
+        g2 = dict(g, T0=resp, M0=now)
+        out.append(('valid-response:clock-reads-reference-value', z3.Implies(valid, z3.And(n['E'] == resp, U(n['P']) == now % 65536, n['I'] == 1, inv(g2, n)))))
+        out.append(('valid-response:last-sync-and-period', z3.Implies(valid, z3.And(n['L'] == resp, n['cur'] == o['sync'], n['status'] == OK, U(n['lastms']) == now))))
+        exp_backup = z3.And(valid, o['bak'] != 0, o['bak'] != o['ref'])
+        if backups:
+            out.append(('valid-response:backup-receives-value', z3.And(exp_backup, backups[0][1] == o['bak'], backups[0][2][0] == resp, B(len(backups) == 1))))
+        else:
+            # syncNow skips the backup only when it is the reference itself, absent, or the clock already reads that value
+            eprev = c.new.field(c.this, SCL, 'mEpochSeconds')
+            out.append(('valid-response:backup-skipped-only-if-same-or-unchanged', z3.Implies(exp_backup, n['E'] == resp)))
+        out.append(('invalid-response:clock-and-last-sync-unchanged', z3.Implies(z3.Not(valid), z3.And(n['L'] == o['L'], n['I'] == o['I'],
+                                                                                                     z3.Implies(init, inv(g, n)), n['status'] == RETRY, n['cur'] == o['cur']))))
+        out.append(('response-read-only-when-sent-and-ready', z3.And(o['status'] == SENT, ref != 0)))
+    else:
+        # no response was read: the clock keeps its set point and last-sync time
+        out.append(('no-response:clock-unchanged', z3.And(n['L'] == o['L'], n['I'] == o['I'], z3.Implies(init, inv(g, n)), B(not backups))))
+        out.append(('sent:timeout-gives-retry', z3.Implies(z3.And(ref != 0, o['status'] == SENT),
+                                                          z3.And(n['cur'] == o['cur'],
+                                                                 n['status'] == z3.If(now - U(o['startms']) >= U(o['timeout']), z3.BitVecVal(RETRY, 8), z3.BitVecVal(SENT, 8))))))
+    # -- Ok / Retry timers
+    out.append(('ok:next-request-after-sync-period', z3.Implies(z3.And(ref != 0, o['status'] == OK),
+                                                                z3.And(n['cur'] == o['cur'], n['status'] == z3.If(now - U(o['lastms']) >= 1000 * U(o['cur']), z3.BitVecVal(READY, 8), z3.BitVecVal(OK, 8))))))
+    due = now - U(o['startms']) >= 1000 * U(o['cur'])
+    backoff = z3.If(z3.UGE(o['cur'], z3.UDiv(o['sync'], z3.BitVecVal(2, 16))), o['sync'], o['cur'] * 2)
+    out.append(('retry:waits-current-period-then-backs-off', z3.Implies(z3.And(ref != 0, o['status'] == RETRY),
+                                                                        z3.And(n['status'] == z3.If(due, z3.BitVecVal(READY, 8), z3.BitVecVal(RETRY, 8)),
+                                                                               n['cur'] == z3.If(due, backoff, o['cur'])))))
+    # -- separation of consecutive requests: Ready is re-entered only a full (pre-transition) period after the last request
+    out.append(('separation:ready-only-a-period-after-last-request', z3.Implies(z3.And(n['status'] == READY, o['status'] != READY),
+                                                                                now - U(o['startms']) >= 1000 * U(o['cur']))))
+    # -- machine invariant preserved, configuration constant
+    out.append(('machine-invariant-preserved', fsm_inv(g, n)))
+    out.append(('configuration-constant', z3.And(n['sync'] == o['sync'], n['timeout'] == o['timeout'], n['ref'] == o['ref'], n['bak'] == o['bak'])))
+    # -- bounded re-request: the deadline never moves later unless a request was just issued, and once it has
+    #    passed every call makes progress (Sent -> Retry/Ok -> Ready -> request)
+    D0, D1 = deadline(g, o), deadline(g, n)
+    # a response (which needs a preceding request) or a new request may re-arm the timer; nothing else moves the deadline
+    if reads:
+        out.append(('progress:deadline-after-response-is-one-period-from-now',
+                    D1 <= z3.If(D0 < now + 1000 * U(o['sync']), now + 1000 * U(o['sync']), D0)))
+    else:
+        out.append(('progress:deadline-does-not-move-later', z3.Implies(z3.And(ref != 0, z3.Not(sent)), D1 <= z3.If(D0 < now, now, D0))))
+    out.append(('progress:deadline-is-bounded', z3.Implies(ref != 0, D1 - now <= U(n['timeout']) + 1000 * z3.If(U(n['cur']) > U(n['sync']), U(n['cur']), U(n['sync'])))))
+    out.append(('progress:after-deadline-every-call-advances', z3.Implies(z3.And(ref != 0, now >= D0), z3.Or(sent, stage(n) < stage(o)))))
+    return out
+
+
+def _assigns_loop(c):
+    return [c.field_addr(c.this, SC, n) for n in ('mEpochSeconds', 'mLastSyncTime', 'mPrevMillis', 'mIsInit')] + \
+           [c.field_addr(c.this, SCL, n) for n in ('mLastSyncMillis', 'mRequestStartMillis', 'mCurrentSyncPeriodSeconds', 'mRequestStatus')]
+
+
+contract('ace_time::clock::SystemClockLoop::loop()', props=['C14'], ghost_init=_loop_ghost, logic='int',
+         requires=_loop_pre, ensures=_loop_post, assigns=_assigns_loop)
+
+
+def _loop_ctor_post(c):
+    n = lfields(c.new, c.this)
+    return [('starts-ready-and-uninitialised', z3.And(n['status'] == READY, n['I'] == 0, n['E'] == INVALID, n['L'] == INVALID)),
+            ('configuration', z3.And(n['sync'] == c.args[3], n['cur'] == c.args[4], n['timeout'] == c.args[5],
+                                     n['ref'] == c.ex.ptr_to_bv(c.args[1]), n['bak'] == c.ex.ptr_to_bv(c.args[2])))]
+
+
+contract('ace_time::clock::SystemClockLoop::SystemClockLoop(ace_time::clock::Clock*, ace_time::clock::Clock*, unsigned short, unsigned short, unsigned short, ace_common::TimingStats*)',
+         props=['C14'], ensures=_loop_ctor_post, assigns=lambda c: [(c.this, 72)])
